@@ -13,7 +13,9 @@ CHECKS = {
         "vmapped trajectories through the Gym-style step inside one lax.scan, per-segment action rules drawn from {space sample, low "
         "corner, high corner, zero/middle, held corner, energy pumping}; every observation is checked against the declared space "
         "(shape, dtype, bounds, NaN; plus the space's own contains on a sample), sampled actions are members, rewards finite float "
-        "scalars, flags boolean scalars, repeated calls with a second environment object constructed in between are identical. Wrapper "
+        "scalars, flags boolean scalars, repeated calls with a second environment object constructed in between are identical. A trace-only part (jax.eval_shape of reset/step) compares the emitted "
+        "(shape, dtype) with the declared spaces for every boolean constructor flag toggled singly, all together and in seeded random "
+        "combinations. Wrapper "
         "stacks cover TimeLimit, ClipAction, RescaleAction, FlattenObservation, ClipObservation, RescaleObservation with asymmetric "
         "targets, ClipReward and Identity. The "
         "runner asserts that MountainCar/Acrobot/Pendulum trajectories actually reach a bound.",
@@ -105,15 +107,17 @@ CHECKS = {
         note="Trusted: vlib/mdp.py interpreter; EMA convention of the LoggingCallback docstring. 12 mutants (see mutants/C19.json).",
     ),
     "C08": dict(
-        technique="property-based testing (Hypothesis) of the static loss functions and one optimiser step against float64 reference formulas",
+        technique="property-based testing (Hypothesis) of the static loss functions and chained optimiser steps against float64 reference formulas; collected-data metamorphic law",
         text="Generated buffers (advantages, returns, stored values/log-probs with log-ratios spread over +-1.5) and real "
         "MLPActorCriticPolicy instances over Discrete / Box scalar / Box vector / MultiBinary / MultiDiscrete action spaces: "
         "PPO.ppo_loss, A2C.a2c_loss and REINFORCE.reinforce_loss values and every stats field vs NumPy float64 formulas from the "
         "statement (clipped surrogate, PPO2 value clipping with max, joint entropy, approx KL); per-row gradient support of the "
-        "clipped surrogate (zero exactly on saturated rows, non-zero elsewhere); train_batch/train output vs "
-        "clip_by_global_norm+adam applied by the harness to the gradient of a float64 transcription (below and above the norm bound).",
+        "clipped surrogate (zero exactly on saturated rows, non-zero elsewhere); two chained train_batch/train calls (from optimiser "
+        "moments warmed by a random gradient, the second on the returned optimiser state) vs clip_by_global_norm+adam applied by the "
+        "harness to the gradient of a float64 transcription (below and above the norm bound); rollouts collected by the real "
+        "collector with the library MLP policy (Box samples outside narrow bounds) give approx_kl 0 and a surrogate of -mean(A).",
         design="DESIGN.md §4 C08",
-        note="Trusted: the policy's evaluate_action per-sample outputs; optax; NumPy float64. 15 mutants all caught. The fresh-data law (ratio 1, KL 0) is checked in C04.",
+        note="Trusted: the policy's evaluate_action per-sample outputs; optax; NumPy float64. 15 mutants all caught. A first Adam step from a fresh state is lr*sign(g), hence the warmed moments.",
     ),
     "C09": dict(
         technique="property-based testing (Hypothesis) of the buffer API with id-encoded rows; end-to-end visit-count recovery through PPO.train by gradient tagging",
@@ -141,7 +145,8 @@ CHECKS = {
         technique="property-based testing (Hypothesis, recursive space strategy) against a pure-Python membership/equality oracle; Gymnasium round trip",
         text="Recursive strategy over all six space kinds (bounds incl. +-inf, low==high, -0.0; nesting) with constructed members, "
         "boundary members, one-defect near-misses and foreign objects: contains/`in` must be a scalar boolean equal to the reference "
-        "predicate and never raise; sample (incl. masked Discrete) and canonical are members; flatten_sample size and injectivity; "
+        "predicate and never raise; sample (incl. masked Discrete) and canonical are members; flatten_sample size, injectivity and "
+        "independence of the key order a Dict member was written in; "
         "==/hash on copy / perturbed / extended / zero-sign / reordered / independent pairs; round trip through Gymnasium spaces.",
         design="DESIGN.md §4 C14",
         note="Trusted: the `member`/`desc_equal` predicates in the check. Subnormal near-misses are not generated (XLA:CPU flushes them to zero). 18 mutants (9 fix reversals).",
@@ -186,7 +191,8 @@ CHECKS = {
         "LoggingCallback with a recording back end, LoggingCallback with Console+TensorBoard, a list of two) must reproduce the "
         "unobserved run up to reassociation-level rounding (rtol 1e-4 / atol 1e-5 on float leaves, integer leaves exactly: an observed "
         "run is a different XLA program and was measured 1 ulp apart; a desynchronised key or observer feedback moves parameters by "
-        "O(learning rate)). One single-iteration run per algorithm checks the same laws on the shortest possible training.",
+        "O(learning rate)). One single-iteration run per algorithm (exempt from the other-key clause: a first Adam step is sign-only) and one "
+        "three-iteration run per on-policy algorithm with a learning-rate warm-up from 0 extend the configurations.",
         design="DESIGN.md §4 C11",
         note="Trusted: bit-identity within one process/XLA build is what the statement needs. Each (algorithm, env, config, observer structure) costs a learn() compile, so the number of configurations is small (10 quick / 40 thorough). 4 mutants caught, 1 equivalent discarded.",
     ),
